@@ -81,7 +81,7 @@ class C11(Prop):
     assumptions = ["system tzdata", "time_machine freezes time.time/strftime/localtime", "times inside a spring-forward gap are unspecified"]
     anchors = ["aioswitcher.schedule.tools:time_to_hexadecimal_timestamp", "aioswitcher.schedule.tools:hexadecimale_timestamp_to_localtime"]
     min_evaluations = {"quick": 150_000, "thorough": 1_500_000}
-    budget_s = {"quick": 90, "thorough": 900}
+    budget_s = {"quick": 300, "thorough": 900}
 
     def selftest(self):
         clock.selftest(1400)
